@@ -183,10 +183,16 @@ def record_one(job):
         x, near = ps[xid]
         cls, r = classify(cfg, x)
         w = rng.choice([1.0, 1.0, 2.0, 0.5])
+        vec = rng.random() < 0.35     # the same probe through the vectorised path (a one-row batch)
         ev = {"op": "EFill", "xid": xid + 1, "cls": cls, "r": int(r), "near": bool(near), "w": list(pnum(w)),
-              "x": repr(x), "out": "ok", "exc": ""}
+              "x": repr(x), "vec": bool(vec), "out": "ok", "exc": ""}
         try:
-            h.fill(x, w)
+            if vec:
+                import numpy as np
+
+                h.fill.numpy(np.array([x], dtype=np.float64), w)
+            else:
+                h.fill(x, w)
         except Exception as e:
             ev.update(out="exc", exc=type(e).__name__, msg=str(e)[:100])
         ev["post"] = observe(h, cfg)
@@ -231,13 +237,13 @@ def view_event(rng, h, cfg, ps):
         mingap = min(b - a for a, b in zip(es, es[1:])) if len(es) > 1 else 1.0
         wide = (hi - lo) > 0.5 * mingap   # a query thinner than half a bin around one edge is a degenerate range
         if k == "Bin":
-            ev["overlap"] = wide and lo < cfg["high"] and hi > cfg["low"]
+            ev["overlap"] = bool(wide and lo < cfg["high"] and hi > cfg["low"])
         elif k == "SparselyBin":
             lo_e = min(h.bins) * cfg["width"] + cfg["origin"]
             hi_e = (max(h.bins) + 1) * cfg["width"] + cfg["origin"]
-            ev["overlap"] = wide and lo < hi_e and hi > lo_e
+            ev["overlap"] = bool(wide and lo < hi_e and hi > lo_e)
         else:
-            ev["overlap"] = wide
+            ev["overlap"] = bool(wide)
     try:
         nb = int(h.num_bins(lo, hi))
         ent = [list(pnum(v)) for v in h.bin_entries(lo, hi)]
